@@ -21,12 +21,13 @@ TSend == IsEv("Send") /\ OSend(Ev.reqs)
 TDispatch == IsEv("Dispatch") /\ ODispatch(Ev.n)
 TComplete == IsEv("Complete") /\ OComplete(Ev.n)
 TSkipped == IsEv("CompleteSkipped") /\ UNCHANGED ovars     \* the script wanted to release a context the handler never got
+TWriteFailed == IsEv("ClientWriteFailed") /\ UNCHANGED ovars  \* the client could not write (server shut its read side): not a verdict
 TWire == IsEv("Wire") /\ Ev.intact = TRUE /\ OWire(Ev.n)
 TEof == IsEv("Eof") /\ OEof
 TPeerClose == IsEv("PeerClose") /\ OPeerClose
 TEnd == IsEv("End") /\ OQuiet
 TReset == IsEv("Reset") /\ Fresh
-TNext == TBegin \/ TSend \/ TDispatch \/ TComplete \/ TSkipped \/ TWire \/ TEof \/ TPeerClose \/ TEnd \/ TReset
+TNext == TBegin \/ TSend \/ TDispatch \/ TComplete \/ TSkipped \/ TWriteFailed \/ TWire \/ TEof \/ TPeerClose \/ TEnd \/ TReset
 TSpec == TInit /\ [][TNext]_tvars
 
 Progress == TLCSet(42, IF l > TLCGet(42) THEN l ELSE TLCGet(42))
